@@ -237,7 +237,11 @@ func checkCommitAfterRefusal(c carCase) (fw.Outcome, *fw.Violation) {
 	if c.malformed() {
 		return fw.Outcome{Discard: true}, nil
 	}
-	o := fw.Outcome{Classes: []string{"fmt:" + c.Format}}
+	fc := c.Format
+	if fc != "LTSV" && fc != "FIXED" {
+		fc = "never_refusing"
+	}
+	o := fw.Outcome{Classes: []string{"fmt:" + fc}}
 	d0 := c.initial()
 	if d0.malformed() != "" {
 		return fw.Outcome{Discard: true}, nil
